@@ -91,7 +91,7 @@ def zc_eff(shape, dx, lam, pad):
 
 
 def shift_tol(inp):
-    t = 0.75 + 0.6 * abs(inp['z'] if 'z' in inp else inp['f']) / zc_eff(inp['shape'], inp['dx'], inp['lam'], inp['pad'])
+    t = 0.75 + 1.1 * abs(inp['z'] if 'z' in inp else inp['f']) / zc_eff(inp['shape'], inp['dx'], inp['lam'], inp['pad'])
     if list(inp.get('samples', [1, 1, 1, 1])) != [1, 1, 1, 1]: t += 0.75
     return t
 
@@ -296,7 +296,7 @@ def focus_case(rng, shape, kind, boundary=None):
         if zc_lo > zc_hi: continue
         f = {'near': zc_lo, 'far': zc_hi}.get(boundary, rng.uniform(zc_lo, zc_hi))
         if kind == 'gauss':
-            t = rng.uniform(6.2, 9.0)                     # zR / f: predicted contrast 1 + 4 t^2 in [155, 325]
+            t = rng.uniform(7.0, 9.5)                     # zR / f: predicted contrast 1 + 4 t^2 in [197, 362]
             w0 = math.sqrt(t * f * lam / math.pi)
             if w0 > n * dx / 5: continue
             ap = {'kind': 'gauss', 'w0': w0}
